@@ -64,9 +64,21 @@ def save_stream(qr, kind, kw, kind_arg=None):
     return as_bytes(kind, buf.getvalue())
 
 
-def canonical_xml(data):
+_DECL = re.compile(r'^<\?xml((?:\s+[A-Za-z]+\s*=\s*(?:"[^"]*"|\'[^\']*\'))*)\s*\?>\s*')
+_PSEUDO = re.compile(r'([A-Za-z]+)\s*=\s*(?:"([^"]*)"|\'([^\']*)\')')
+
+
+def canonical_xml(data, enc='utf-8'):
+    """canonical form of an XML document given as bytes in `enc`: the pseudo-attributes of the XML declaration (quote style
+    normalised; the data URI route writes single quotes) followed by the C14N form of the document"""
     import xml.etree.ElementTree as ET
-    return ET.canonicalize(xml_data=data.decode('utf-8', 'replace')).encode('utf-8')
+    text = data.decode(enc, 'replace')
+    m = _DECL.match(text)
+    decl = 'no-declaration'
+    if m:
+        decl = 'declaration ' + ' '.join('%s=%s' % (a, b or c) for a, b, c in _PSEUDO.findall(m.group(1)))
+        text = text[m.end():]
+    return (decl + '\n' + ET.canonicalize(xml_data=text)).encode('utf-8')
 
 
 def run_cli(argv):
@@ -107,7 +119,7 @@ def route_obs(vec):
     try:
         ref = normalise(kind, save_stream(qr, kind, ref_kw))
         if route == 'data_uri' and kind == 'svg':
-            ref = canonical_xml(ref)
+            ref = canonical_xml(ref, ref_kw.get('encoding') or 'utf-8')
         o['ref'] = digest(ref)
     except Exception as e:  # noqa
         o['ref'] = failure(e)
@@ -129,10 +141,7 @@ def route_obs(vec):
                 uri = qr.svg_data_uri(**kw)
                 enc = kw.get('encoding', 'utf-8') or 'utf-8'      # encoding=None: UTF-8 without declaration
                 o['prefix_ok'] = uri.startswith('data:image/svg+xml;charset=' + enc + ',')
-                got = canonical_xml(urllib.parse.unquote_to_bytes(uri.split(',', 1)[1]).decode(enc).encode('utf-8'))
-                # the reference was canonicalised from its own encoding as well
-                if enc != 'utf-8' and o['ref']['status'] == 'ok':
-                    o['ref'] = digest(canonical_xml(save_stream(qr, kind, ref_kw).decode(enc).replace('encoding="%s"' % enc, 'encoding="utf-8"').encode('utf-8')))
+                got = canonical_xml(urllib.parse.unquote_to_bytes(uri.split(',', 1)[1]), enc)
         elif route == 'inline':
             got = qr.svg_inline(**kw).encode(kw.get('encoding', 'utf-8') or 'utf-8')
         elif route == 'svgz_file':
